@@ -119,9 +119,13 @@ def lib_verdict(line, version):
         msg = Message(line)
     except ValueError:
         return None, "malformed"
+    except Exception:      # the decoder itself failed: for the monitors this is not a frame (the pump is judged separately)
+        return None, "malformed"
     try:
         msg.validate(version)
     except vol.Invalid:
+        return msg, "invalid"
+    except Exception:      # validation failed internally: no verdict (the same failure in the pump is judged there)
         return msg, "invalid"
     return msg, "ok"
 
